@@ -7,14 +7,30 @@ import copy
 from .frontend import norm
 
 
+def clone(node):
+    """deep copy of an AST following fields only (never the `_parent` back pointers, which would drag in the module)"""
+    if isinstance(node, list):
+        return [clone(x) for x in node]
+    if not isinstance(node, ast.AST):
+        return node
+    new = node.__class__()
+    for f in node._fields:
+        if hasattr(node, f):
+            setattr(new, f, clone(getattr(node, f)))
+    for a in ("lineno", "col_offset", "end_lineno", "end_col_offset"):
+        if hasattr(node, a):
+            setattr(new, a, getattr(node, a))
+    return new
+
+
 def substitute(expr, mapping):
     """copy of expr with every Name in `mapping` replaced by (a copy of) its expression"""
     class Sub(ast.NodeTransformer):
         def visit_Name(self, n):
             if n.id in mapping and isinstance(n.ctx, ast.Load):
-                return ast.copy_location(copy.deepcopy(mapping[n.id]), n)
+                return ast.copy_location(clone(mapping[n.id]), n)
             return n
-    return Sub().visit(copy.deepcopy(expr))
+    return Sub().visit(clone(expr))
 
 
 def _is_simple_alias(e):
@@ -70,7 +86,7 @@ def inline_helpers(fn, find_method, max_body=12, only=None):
     """Copy of fn in which statement-level calls `self.<helper>(args)` (and `x = self.<helper>(args)` for helpers that
     are a single `return <expr>`) of small private helpers are replaced by the helper's body, parameters substituted.
     `find_method(name)` returns the helper's FunctionDef or None."""
-    fn = copy.deepcopy(fn)
+    fn = clone(fn)
 
     def helper_of(call):
         if isinstance(call, ast.Call) and isinstance(call.func, ast.Attribute) and isinstance(call.func.value, ast.Name) \
@@ -133,7 +149,7 @@ def substitute_stmt(stmt, mapping):
     class Sub(ast.NodeTransformer):
         def visit_Name(self, n):
             if n.id in mapping:
-                rep = copy.deepcopy(mapping[n.id])
+                rep = clone(mapping[n.id])
                 if isinstance(n.ctx, ast.Store):
                     if isinstance(rep, (ast.Name, ast.Attribute, ast.Subscript)):
                         rep.ctx = ast.Store()
@@ -141,7 +157,7 @@ def substitute_stmt(stmt, mapping):
                     return n
                 return ast.copy_location(rep, n)
             return n
-    return Sub().visit(copy.deepcopy(stmt))
+    return Sub().visit(clone(stmt))
 
 
 def inline_call_expr(call, find_method):
@@ -234,7 +250,7 @@ def helper_view(h, call):
     """copy of helper `h` as seen from the call `self.h(args)`: parameters replaced by the argument expressions, every
     node positioned at the call, parent pointers set (the copy's parent is the call)"""
     m = _bind_call(h, call)
-    hb = copy.deepcopy(h)
+    hb = clone(h)
     hb.body = [substitute_stmt(b, m) for b in hb.body]
     for n in ast.walk(hb):
         if hasattr(n, "lineno"):
@@ -245,10 +261,20 @@ def helper_view(h, call):
     return hb
 
 
-def calls_through_helpers(fn, find_method, depth=3, _seen=(), want=None, _memo=None):
-    """every Call node of fn and, transitively, of the same-class helpers it calls as self.<helper>(…) /
-    cls.<helper>(…), the helpers' bodies being expressed in the caller's terms (see helper_view). With `want`
-    (predicate on Call nodes) only helpers that transitively contain a wanted call are expanded."""
+def _helper_of_call(c, find_method, find_function):
+    if isinstance(c.func, ast.Attribute) and isinstance(c.func.value, ast.Name) and c.func.value.id in ("self", "cls") \
+            and find_method is not None:
+        return find_method(c.func.attr)
+    if isinstance(c.func, ast.Name) and find_function is not None:
+        return find_function(c.func.id)
+    return None
+
+
+def nodes_through_helpers(fn, find_method=None, depth=3, _seen=(), want=None, _memo=None, find_function=None):
+    """every AST node of fn and, transitively, of the helpers it calls — same-class methods called as
+    self.<helper>(…) / cls.<helper>(…) (find_method) and same-module functions called by name (find_function) — the
+    helpers' bodies being expressed in the caller's terms (see helper_view; the view's parent is the call). With `want`
+    (predicate on nodes) only helpers that transitively contain a wanted node are expanded."""
     memo = {} if _memo is None else _memo
 
     def has_wanted(h, d, seen):
@@ -258,32 +284,46 @@ def calls_through_helpers(fn, find_method, depth=3, _seen=(), want=None, _memo=N
         memo[key] = False
         r = False
         for c in ast.walk(h):
-            if isinstance(c, ast.Call):
-                if want(c):
+            if want(c):
+                r = True
+                break
+            if d > 0 and isinstance(c, ast.Call):
+                h2 = _helper_of_call(c, find_method, find_function)
+                if h2 is not None and h2.name not in seen and has_wanted(h2, d - 1, seen + (h2.name,)):
                     r = True
                     break
-                if d > 0 and isinstance(c.func, ast.Attribute) and isinstance(c.func.value, ast.Name) \
-                        and c.func.value.id in ("self", "cls"):
-                    h2 = find_method(c.func.attr)
-                    if h2 is not None and h2.name not in seen and has_wanted(h2, d - 1, seen + (h2.name,)):
-                        r = True
-                        break
         memo[key] = r
         return r
 
     out = []
     for c in ast.walk(fn):
-        if not isinstance(c, ast.Call):
-            continue
         out.append(c)
-        if depth > 0 and isinstance(c.func, ast.Attribute) and isinstance(c.func.value, ast.Name) \
-                and c.func.value.id in ("self", "cls"):
-            h = find_method(c.func.attr)
+        if depth > 0 and isinstance(c, ast.Call):
+            h = _helper_of_call(c, find_method, find_function)
             if h is not None and h.name not in _seen and h.name != getattr(fn, "name", None):
                 if want is not None and not has_wanted(h, depth - 1, _seen + (h.name,)):
                     continue
-                out += calls_through_helpers(helper_view(h, c), find_method, depth - 1, _seen + (h.name,), want, memo)
+                out += nodes_through_helpers(helper_view(h, c), find_method, depth - 1, _seen + (h.name,), want, memo,
+                                             find_function)
     return out
+
+
+def calls_through_helpers(fn, find_method=None, depth=3, _seen=(), want=None, _memo=None, find_function=None):
+    """the Call nodes among nodes_through_helpers (want: predicate on Call nodes)"""
+    w = (lambda n: isinstance(n, ast.Call) and want(n)) if want is not None else None
+    return [n for n in nodes_through_helpers(fn, find_method, depth, _seen, w, _memo, find_function)
+            if isinstance(n, ast.Call)]
+
+
+def view_root(n):
+    """(helper view FunctionDef, call it was expanded from) if n lies in a helper view, else (None, None)"""
+    x = n
+    while x is not None:
+        p = getattr(x, "_parent", None)
+        if isinstance(x, ast.FunctionDef) and isinstance(p, ast.Call):
+            return x, p
+        x = p
+    return None, None
 
 
 def single_assignments(fn):
@@ -346,7 +386,7 @@ def desugar_comprehensions(fn):
         return [e for …]                   ->  _result = []; for …: _result.append(e); return _result
         x = sum([e for …], start=[])       ->  x = []; for …: x += e
     Comprehensions nested inside larger expressions are left alone."""
-    fn = copy.deepcopy(fn)
+    fn = clone(fn)
 
     def app(name, elt, at):
         return ast.Expr(value=ast.Call(func=ast.Attribute(value=ast.Name(id=name, ctx=ast.Load()), attr="append",
@@ -429,7 +469,7 @@ def inline_private_exprs(tree, find_method_of, rounds=2, eligible=None):
     and `self.<_h>(args)` (private single-return method) are replaced by that expression, parameters substituted. The
     extracted accessor / builder then reads exactly like the code it was extracted from. `find_method_of(class name)`
     gives name -> FunctionDef along the MRO. Returns (tree copy with parents, set of (class, helper) names inlined)."""
-    tree = copy.deepcopy(tree)
+    tree = clone(tree)
     used = set()
     eligible = eligible or _is_private
 
@@ -468,7 +508,7 @@ def inline_private_exprs(tree, find_method_of, rounds=2, eligible=None):
                         r = _single_return(h)
                         if r is not None:
                             used.add((cls.name, h.name))
-                            new = copy.deepcopy(r)
+                            new = clone(r)
                             for x in ast.walk(new):
                                 if hasattr(x, "lineno"):
                                     x.lineno = n.lineno
